@@ -731,7 +731,12 @@ func runC14(c *Ctx) {
 	R.Require("S.rate-limit", 2, "")
 	R.Require("S.expiry", 3, "")
 	R.Require("S.route", 2, "")
-	R.Explain = "The wall-clock behaviour (5 s idle, 60 s expiry measured in real time) is not decided. Decided for all inputs: which stored time each threshold is compared with and the folded constants; that the creation time is never rewritten; that the missing list is rebuilt per transfer by an ascending scan of that transfer's slot table naming exactly the empty slots; count / original serial / addressing of the 0x8003; the rate-limit store; expiry removes both map entries before re-requests are built; routing to the writer."
+	// a transfer that is complete (or expired) leaves no timer record behind: the re-request pass iterates over the
+	// timer records, so a stale one produces 0x8003 frames for a message that needs nothing
+	R.Rules["S.paired-maps"] = "the slot table and the timer record of a transfer are created and deleted together, under the same key, in every function (the re-request pass runs over the timer records: a record without a pending slot table asks again for a message that was already delivered)"
+	c.pairedMapsLemma("service", "packageParse", "subcontractingRecord", "timeoutRecord")
+	R.Require("S.paired-maps", 3, "")
+	R.Explain = "The wall-clock behaviour (5 s idle, 60 s expiry measured in real time) is not decided. Decided for all inputs: which stored time each threshold is compared with and the folded constants; that the creation time is never rewritten; that the missing list is rebuilt per transfer by an ascending scan of that transfer's slot table naming exactly the empty slots; count / original serial / addressing of the 0x8003; the rate-limit store; expiry removes both map entries before re-requests are built; completion removes both as well (paired maps); routing to the writer."
 }
 
 func storesToFieldAny(fn *ssa.Function, field string) []*ssa.Store {
